@@ -30,3 +30,24 @@ def c17_property_name_instance(what, case):
     return (what == "index_error_free_element" and case.get("has_property_name_error") is True
             and all(p.get("out") == "TypeError" and p.get("p") in case.get("property_name_error_paths", [])
                     for p in case.get("index_probes", [])))
+
+
+def c09_int_str_limit(what, case):
+    """F15: an operand is an integer with more digits than the interpreter's int->str conversion limit, every exception
+    seen is that limit's ValueError, and in the keyword form reported every draft raised (no draft gave a verdict that
+    could be wrong)"""
+    forms = case.get("forms") or ["minimum", "exclusiveMinimum", "maximum", "exclusiveMaximum", "multipleOf",
+                                  "maximum+exclusiveMaximum", "minimum+exclusiveMinimum"]
+    alias = {"multipleOf_raises": "multipleOf", "maximum_with_exclusiveMaximum": "maximum+exclusiveMaximum",
+             "minimum_with_exclusiveMinimum": "minimum+exclusiveMinimum"}
+    form = alias.get(what, what)
+    if form not in forms or not case.get("beyond_int_str_limit"):
+        return False
+    exc = case.get("exceptions") or []
+    if not exc or not all(e.startswith("ValueError: Exceeds the limit") for e in exc):
+        return False
+    col = case.get("observed_per_draft") or []
+    if col and isinstance(col[0], list):          # trace records carry the whole table: take this form's column
+        j = list(forms).index(form)
+        col = [row[j] for row in col]
+    return bool(col) and all(c in ("raise", "n/a") for c in col)
